@@ -77,8 +77,11 @@ _p('C12',
    'Purity clause: for each of the contract methods (eval_f*, solve_system*, solve_jacobian, u_exact, apply_mass_matrix, build_f, boris_solver, ...) of every library '
    'problem class a flow-sensitive abstract value (fresh / view-of-parameter / alias-of-parameter / attribute-of-self) is propagated through assignments, branches '
    '(joined) and loops (two passes); subscript/attribute stores, augmented stores into views, .fill()-like methods, out= and receive buffers whose target may reach a '
-   'parameter are violations, also through one level of self.helper(); returned values of eval_f/solve_system* must be fresh.',
-   ['residual of the implicit solve', 'equality of split and unsplit right-hand sides', 'closed-form solutions'])
+   'parameter are violations, also through one level of self.helper(); returned values of eval_f/solve_system* must be fresh. '
+   'Splitting clause where it is symbolic (R4): for sibling classes that override eval_f with another splitting, the locally inlined component expressions are '
+   'turned into sympy expressions (operators opaque, reshape/flatten transparent, FFTs linear) and the sums are compared, including the shift of a stabilised variant. '
+   'Per-dimension sums (R3): in a sum written once per dimension no single term deviates from the form the others share.',
+   ['residual of the implicit solve', 'closed-form solutions beyond the per-dimension sibling rule', 'splittings whose eval_f branches on data or on a spectral/physical switch (reported as NOTE, not decided)'])
 _p('C13',
    'Datatype side: no in-place dunder in any datatype class (positive control embedded), __array_ufunc__ binds and drops out, binary dunders do not store into operands, '
    'copy constructors allocate and copy, abs reduces with max/norm. Client side: the same alias lattice with level data slots (X.u[i], X.f[i], X.uend, ...) as sources '
